@@ -14,7 +14,7 @@
 From Coq Require Import List ZArith QArith Bool.
 From Gst Require Import C09.Model C09.Readers C09.Readers2 C09.Readers3 C09.Readers4 C09.Spec C09.Witness C09.Proofs_prim C09.Proofs_loc
                         C09.Proofs_wf C09.Proofs_top C09.Proofs_refute C09.Proofs_main C09.Proofs2_top C09.Proofs2_refute
-                        C09.Proofs3_csv C09.Proofs4.
+                        C09.Proofs3_csv C09.Proofs4 C09.Readers5 C09.Proofs5.
 Import ListNotations.
 Local Open Scope Z_scope.
 
@@ -181,6 +181,19 @@ Theorem C09_pending_dbline : forall E f, flen f < 2147483648 -> fixed_env E f (a
   good_outcome wf_dbline (alloc_bound_grid (flen f)) (load_DbLine E f).
 Proof. exact load_DbLine_guarded. Qed.
 Print Assumptions C09_pending_dbline.
+
+(* ---------------------------------------------------------------- the binary format: GridBmp::readGridFromFile on the bytes of a file
+   (coq/C09/Readers5.v, tied to db_grid_read_bmp by the correspondence on field-aware corruptions of the two headers).
+   The palette loop fills ir / ig / ib[256]: no store at a rank >= 256, whatever the header says (the test ncol > 256 precedes the loop
+   and nothing changes ncol in between); the pixel loops deliver exactly nx0 * nx1 values (the stores tab[ecr++] stay inside tab), the
+   image is not larger than the file (allocation 8 |f|). *)
+Theorem C09_bmp_palette_in_bounds : forall f, bmp_read f <> BmpOOB.
+Proof. exact bmp_no_oob. Qed.
+Print Assumptions C09_bmp_palette_in_bounds.
+Theorem C09_bmp_pixel_loops : forall f nx0 nx1 dx0 dx1 tab, bmp_read f = BmpOk nx0 nx1 dx0 dx1 tab ->
+  0 < nx0 /\ 0 < nx1 /\ zlen tab = nx0 * nx1 /\ nx0 * nx1 <= zlen f.
+Proof. exact bmp_pixels. Qed.
+Print Assumptions C09_bmp_pixel_loops.
 
 (* _recordRead, in any configuration: returns, consumes a suffix, allocates nothing *)
 Theorem C09_recordRead_total : forall m, reads m (record_word m).
